@@ -293,6 +293,17 @@ def _variant_ctor(prog, fty):
     return None
 
 
+def _closure_arg_ty(prog, rec, f_op):
+    """type of the (single) parameter of a closure operand, from the closure body's locals; None if unknown"""
+    if f_op.get("k") not in ("move", "copy") or f_op["place"]["proj"]:
+        return None
+    fty = rec["locals"][f_op["place"]["local"]]
+    if fty.get("k") != "closure" or fty.get("path") not in prog.fns:
+        return None
+    cl = prog.fns[fty["path"]].rec
+    return cl["locals"][2] if len(cl["locals"]) >= 3 and cl.get("argc", 2) == 2 else None
+
+
 def _single_def(rec, local):
     """The only statement / call that writes `local` (whole local), or None."""
     found = []
@@ -740,7 +751,7 @@ def desugar(rec, prog, stats):
                 rec["locals"].extend([usz, BOOL, sty["to"]["elem"]])
                 nb = len(rec["blocks"])
                 blk["stmts"] = list(blk["stmts"]) + [
-                    {"k": "assign", "place": {"local": n, "proj": []}, "rv": {"k": "len", "place": {"local": sl, "proj": [{"k": "deref"}]}}, "line": line},
+                    {"k": "assign", "place": {"local": n, "proj": []}, "rv": {"k": "unop", "op": "PtrMetadata", "a": {"k": "copy", "place": {"local": sl, "proj": []}}}, "line": line},
                     {"k": "assign", "place": {"local": n + 1, "proj": []}, "rv": {"k": "binop", "op": "Ge", "a": {"k": "move", "place": {"local": n, "proj": []}},
                                                                                  "b": {"k": "const", "ty": usz, "bits": 1, "val": 1, "size": 8}}, "line": line}]
                 blk["term"] = {"k": "switch", "discr": {"k": "move", "place": {"local": n + 1, "proj": []}}, "dty": BOOL, "arms": [[0, nb + 1]], "otherwise": nb, "line": line}
@@ -756,6 +767,39 @@ def desugar(rec, prog, stats):
                     for d_ in chain_:
                         rec["blocks"][d_[1]]["stmts"] = [x_ for x_ in rec["blocks"][d_[1]]["stmts"] if x_ is not d_[3]]
                 stats.setdefault(rec["path"], []).append("desugar:starts_with")
+                changed = True
+                continue
+        if c == "core::slice::<impl [T]>::get" and len(t["args"]) == 2 and not t["dest"]["proj"] and len(t.get("cargs") or []) == 2 \
+                and t["cargs"][1].get("k") == "adt" and t["cargs"][1].get("path") in ("core::ops::RangeTo", "core::ops::RangeFrom") \
+                and all(a_["k"] in ("move", "copy") and not a_["place"]["proj"] for a_ in t["args"]):
+            # s.get(..n) / s.get(n..)  ->  if n <= s.len() { Some(&s[..n]) } else { None }      (the index cannot fail under the test)
+            sl, rg = t["args"][0]["place"]["local"], t["args"][1]["place"]["local"]
+            sty = rec["locals"][sl]
+            dty = rec["locals"][t["dest"]["local"]]
+            if sty.get("k") == "ref" and sty.get("to", {}).get("k") == "slice" and dty.get("k") == "adt" and dty.get("args"):
+                line = t.get("line")
+                usz = {"k": "uint", "bits": 64, "name": "usize"}
+                n = len(rec["locals"])
+                rec["locals"].extend([usz, usz, BOOL, dty["args"][0]])
+                nb = len(rec["blocks"])
+                fld = "end" if t["cargs"][1]["path"].endswith("RangeTo") else "start"
+                blk["stmts"] = list(blk["stmts"]) + [
+                    {"k": "assign", "place": {"local": n, "proj": []}, "rv": {"k": "use", "op": {"k": "copy", "place": {"local": rg, "proj": [{"k": "field", "i": 0, "ty": usz}]}}}, "line": line},
+                    {"k": "assign", "place": {"local": n + 1, "proj": []}, "rv": {"k": "unop", "op": "PtrMetadata", "a": {"k": "copy", "place": {"local": sl, "proj": []}}}, "line": line},
+                    {"k": "assign", "place": {"local": n + 2, "proj": []}, "rv": {"k": "binop", "op": "Le", "a": {"k": "move", "place": {"local": n, "proj": []}},
+                                                                                 "b": {"k": "move", "place": {"local": n + 1, "proj": []}}}, "line": line}]
+                blk["term"] = {"k": "switch", "discr": {"k": "move", "place": {"local": n + 2, "proj": []}}, "dty": BOOL, "arms": [[0, nb + 2]], "otherwise": nb, "line": line}
+                rec["blocks"].append({"stmts": [], "term": {"k": "call", "callee": "core::ops::Index::index", "resolved": "core::slice::index::<impl core::ops::Index<I> for [T]>::index",
+                                                            "cargs": [sty["to"], t["cargs"][1]], "rargs": [sty["to"].get("elem"), t["cargs"][1]], "rkind": "item",
+                                                            "args": [copy.deepcopy(t["args"][0]), copy.deepcopy(t["args"][1])], "dest": {"local": n + 3, "proj": []},
+                                                            "target": nb + 1, "line": line}})
+                rec["blocks"].append({"stmts": [{"k": "assign", "place": copy.deepcopy(t["dest"]),
+                                                 "rv": {"k": "aggregate", "agg": "adt", "path": "core::option::Option", "variant": 1, "vname": "Some", "args": dty["args"], "is_enum": True,
+                                                        "ops": [{"k": "move", "place": {"local": n + 3, "proj": []}}]}, "line": line}], "term": {"k": "goto", "target": t["target"]}})
+                rec["blocks"].append({"stmts": [{"k": "assign", "place": copy.deepcopy(t["dest"]),
+                                                 "rv": {"k": "aggregate", "agg": "adt", "path": "core::option::Option", "variant": 0, "vname": "None", "args": dty["args"], "is_enum": True, "ops": []},
+                                                 "line": line}], "term": {"k": "goto", "target": t["target"]}})
+                stats.setdefault(rec["path"], []).append("desugar:slice::get(range)")
                 changed = True
                 continue
         if c == "core::mem::replace" and len(t["args"]) == 2 and not t["dest"]["proj"] and t["args"][0]["k"] in ("move", "copy") \
@@ -830,7 +874,8 @@ def desugar(rec, prog, stats):
             changed = True
             continue
         if c in ("core::iter::Iterator::try_for_each", "core::iter::Iterator::for_each") and len(t["args"]) == 2 and not t["dest"]["proj"] \
-                and t.get("cargs") and t["cargs"][0].get("k") == "adt" and t["cargs"][0].get("path") in ITER_NEXT_OF \
+                and t.get("cargs") and ((t["cargs"][0].get("k") == "adt" and t["cargs"][0].get("path") in ITER_NEXT_OF) or
+                                        (t["cargs"][0].get("k") in ("other", "param") and _closure_arg_ty(prog, rec, t["args"][1]) is not None)) \
                 and all(a["k"] in ("move", "copy") and not a["place"]["proj"] for a in t["args"]) \
                 and rec["locals"][t["args"][1]["place"]["local"]].get("k") == "closure":
             # it.try_for_each(f)  ->  loop { match it.next() { None => break Ok(()), Some(x) => f(x)? } }      (for_each: without the `?`)
@@ -840,8 +885,15 @@ def desugar(rec, prog, stats):
             by_ref = rec["locals"][itl].get("k") == "ref"
             if c.endswith("for_each") and not c.endswith("try_for_each") and by_ref is False:
                 pass
-            elem = ity["args"][0] if ity.get("args") else {"k": "other"}
-            item_ty = {"k": "ref", "mut": ity["path"].endswith("IterMut"), "to": elem}
+            generic_it = ity.get("k") != "adt"
+            if generic_it:
+                # an iterator of a generic type (`I::IntoIter`): `next` stays the unresolved trait call rustc emits for a plain `for` loop,
+                # the item type is the closure's parameter type
+                elem = {"k": "other"}
+                item_ty = _closure_arg_ty(prog, rec, t["args"][1])
+            else:
+                elem = ity["args"][0] if ity.get("args") else {"k": "other"}
+                item_ty = {"k": "ref", "mut": ity["path"].endswith("IterMut"), "to": elem}
             opt_ty = {"k": "adt", "path": "core::option::Option", "args": [item_ty], "s": "core::option::Option<&T>"}
             fl = f_op["place"]["local"]
             fty = rec["locals"][fl]
@@ -866,7 +918,8 @@ def desugar(rec, prog, stats):
                     if uses == 2:
                         del rec["blocks"][dfn[1]]["stmts"][dfn[2]]
             rec["blocks"].append({"stmts": [{"k": "assign", "place": {"local": r, "proj": []}, "rv": {"k": "ref", "mut": True, "place": it_place}, "line": line}],
-                                  "term": {"k": "call", "callee": "core::iter::Iterator::next", "resolved": ITER_NEXT_OF[ity["path"]], "cargs": [ity], "rargs": [elem],
+                                  "term": {"k": "call", "callee": "core::iter::Iterator::next", "resolved": None if generic_it else ITER_NEXT_OF[ity["path"]], "cargs": [ity],
+                                           "rargs": [] if generic_it else [elem],
                                            "args": [{"k": "move", "place": {"local": r, "proj": []}}], "dest": {"local": nx, "proj": []}, "target": S, "line": line}})
             rec["blocks"].append({"stmts": [{"k": "assign", "place": {"local": d, "proj": []}, "rv": {"k": "discr", "place": {"local": nx, "proj": []}}, "line": line}],
                                   "term": {"k": "switch", "discr": {"k": "move", "place": {"local": d, "proj": []}}, "dty": {"k": "int", "bits": 64, "name": "isize"},
